@@ -143,12 +143,37 @@ let address_text_ok (text : string) : bool =
     end
   end
 
-let addr_ok (ty : z) (bytes : byte0 list) : bool =
+(* inverse of encode_base on well-formed text: leading alphabet.[0] -> zero bytes, then the big-endian number *)
+let decode_base (base : int) (alphabet : string) (text : string) : int list =
+  let n = String.length text in
+  let nz = ref 0 in
+  while !nz < n && text.[!nz] = alphabet.[0] do incr nz done;
+  let num = ref [] in   (* big-endian base-256 digits *)
+  for i = !nz to n - 1 do
+    let d = String.index alphabet text.[i] in
+    let carry = ref d in
+    let mul = List.rev_map (fun x -> let t = x * base + !carry in carry := t / 256; t mod 256) (List.rev !num) in
+    (* rev_map over the reversed list processes least-significant first and returns most-significant first *)
+    let rec push c acc = if c = 0 then acc else push (c / 256) ((c mod 256) :: acc) in
+    num := push !carry mul
+  done;
+  List.init !nz (fun _ -> 0) @ !num
+
+(* Address normalisation as performed by DeserializeFromVbkEncoding(Address) + Address::fromString:
+   the type is derived from the TEXT (multisig iff it ends in '0'), not from the wire type byte *)
+let addr_norm (ty : z) (bytes : byte0 list) : (z * byte0 list) option =
   let d = ints_of_bytes bytes in
-  match int_of_z ty with
-  | 1 -> address_text_ok (encode_base 58 alphabet58 d)
-  | 3 -> address_text_ok (encode_base 59 alphabet59 d)
-  | _ -> false
+  let text = match int_of_z ty with
+    | 1 -> Some (encode_base 58 alphabet58 d)
+    | 3 -> Some (encode_base 59 alphabet59 d)
+    | _ -> None in
+  match text with
+  | Some t when address_text_ok t ->
+    let multisig = t.[29] = '0' in
+    let b' = if multisig then decode_base 59 alphabet59 t else decode_base 58 alphabet58 t in
+    Some (z_of_int (if multisig then 3 else 1), List.map (fun x -> z2b (z_of_int x)) b')
+  | _ -> None
+let addr_ok ty bytes = addr_norm ty bytes <> None
 
 (* ---- entity <-> tree ---- *)
 let tz v = A (hex_of_z v)
@@ -265,9 +290,9 @@ let dispatch (op : string) (t : string) (arg : string) : string =
     | "enc" -> do_enc c read arg
     | _ -> failwith ("unknown op " ^ op) in
   match t with
-  | "address" -> go (c_address addr_ok) t_address address_t
+  | "address" -> go (c_address addr_norm) t_address address_t
   | "coin" -> go c_coin tz zt
-  | "output" -> go (c_output addr_ok) t_output output_t
+  | "output" -> go (c_output addr_norm) t_output output_t
   | "btctx" -> go c_btctx tb bt
   | "btcblock" -> go c_btcblock t_btcblock btcblock_t
   | "btcblockraw" -> go c_btcblock_raw t_btcblock btcblock_t
@@ -285,11 +310,11 @@ let dispatch (op : string) (t : string) (arg : string) : string =
   | "merklepath" -> go c_merklepath t_merklepath merklepath_t
   | "vbkmerklepath" -> go c_vbkmerklepath t_vbkmerklepath vbkmerklepath_t
   | "pubdata" -> go c_pubdata t_pubdata pubdata_t
-  | "vbktx" -> go (c_vbktx addr_ok) t_vbktx vbktx_t
-  | "vbkpoptx" -> go (c_vbkpoptx addr_ok) t_vbkpoptx vbkpoptx_t
-  | "atv" -> go (c_atv addr_ok) t_atv atv_t
-  | "vtb" -> go (c_vtb addr_ok) t_vtb vtb_t
-  | "popdata" -> go (c_popdata addr_ok) t_popdata popdata_t
+  | "vbktx" -> go (c_vbktx addr_norm) t_vbktx vbktx_t
+  | "vbkpoptx" -> go (c_vbkpoptx addr_norm) t_vbkpoptx vbkpoptx_t
+  | "atv" -> go (c_atv addr_norm) t_atv atv_t
+  | "vtb" -> go (c_vtb addr_norm) t_vtb vtb_t
+  | "popdata" -> go (c_popdata addr_norm) t_popdata popdata_t
   | _ -> failwith ("unknown type " ^ t)
 
 let show_res show = function
